@@ -3,6 +3,7 @@ package fsx
 import (
 	"encoding/json"
 	"fmt"
+	"os"
 
 	"github.com/emersion/go-webdav/verifharness/fw"
 	"github.com/emersion/go-webdav/verifharness/model/davtree"
@@ -13,9 +14,25 @@ func ReplayWitness(c *fw.Ctx, mon Monitors, w json.RawMessage) {
 	var wit struct {
 		Tree    string      `json:"tree"`
 		Request davtree.Req `json:"request"`
+		Slice   *struct {
+			Staging *StagingCase `json:"staging_case"`
+		} `json:"slice_case"`
 	}
 	if err := json.Unmarshal(w, &wit); err != nil {
 		fmt.Println("cannot read witness:", err)
+		return
+	}
+	if wit.Slice != nil && wit.Slice.Staging != nil {
+		// the names depend on the number of the process that serves: the case
+		// is rebuilt for this process
+		e, err := NewEnv(c, mon, "replay")
+		if err != nil {
+			fmt.Println(err)
+			return
+		}
+		defer e.Close()
+		fmt.Printf("staging-names case %+v, re-run in process %d\n", *wit.Slice.Staging, os.Getpid())
+		e.runStagingCase(*wit.Slice.Staging)
 		return
 	}
 	t, ok := ParseShape(wit.Tree)
